@@ -5,7 +5,7 @@ from ..driver import drive, result_of
 from ..zoommon import ZoomMon
 
 PROP = "C11"
-FAMS = ["hugeneg", "negbern", "nonpos3", "cl_negdist", "bern", "quant5", "neg", "const", "zero", "tied", "twoval", "noisy", "unit", "large", "large_off", "drift", "cl_hump",
+FAMS = ["int3wide", "hugeneg", "negbern", "nonpos3", "cl_negdist", "bern", "quant5", "neg", "const", "zero", "tied", "twoval", "noisy", "unit", "large", "large_off", "drift", "cl_hump",
         "cl_garland", "cl_step", "cl_sine"]
 RULE = ("Zooming on all 11 partition variants (midpoint splits Bin/DimBin/K2/K4 over-weighted: there the pulled arm "
         "lies exactly on the face between children), d=1..3, all box kinds, nu in [0.3,30], rho in [0.4,0.95] so that "
